@@ -112,9 +112,11 @@ PROPS["C26"] = dict(
           expected_verified=11),
         V("C26.pdata_reader", "c26_pdata_reader.vrs",
           "<PDataReader as Read>::read: for any segmentation of the transport, a call either serves buffered payload, or returns 0 after "
-          "the last fragment, or receives exactly the first PDU of the logical stream (a P-DATA PDU), appends the data of its values in "
-          "order, records the last flag, and leaves exactly the rest of the stream for the next receive; the receive loop terminates",
-          expected_verified=7),
+          "the last fragment, or receives PDUs of the logical stream until one brings payload or is marked last (the ones before it are "
+          "P-DATA PDUs without any payload; nothing else is skipped), appends the data of that PDU's values in order, records the last flag, "
+          "and leaves exactly the rest of the stream for the next receive; a read of 0 bytes into a non-empty buffer happens only when "
+          "the message is complete (postcondition taken from the property; defect S44); both receive loops terminate",
+          expected_verified=10),
         N("C26.writer_messages",
           "cp /repo/Cargo.lock /verif/witness/Cargo.lock && CARGO_TARGET_DIR=/verif/build/witness cargo run --offline -q --release "
           "--manifest-path /verif/witness/Cargo.toml --bin c26_writer_messages 2>&1 | grep -E '^(WITNESS|EXHAUSTIVE|SKIPPED|error)' | tail -220",
@@ -137,7 +139,7 @@ PROPS["C26"] = dict(
           "length to an acceptor that starts reading after 1.5 s and reads slowly, so that the transport accepts PDUs in part and answers "
           "Pending in between: every PDU well-formed, the values concatenate to the payload (the writer parts are skipped, not failed, where "
           "loopback TCP is unavailable)",
-          bound="1051 cases: 40 writer (payload, schedule) pairs + 1008 reader (message shape, continuation, segment size, buffer size) cases "
+          bound="1915 cases: 40 writer (payload, schedule) pairs + 1872 reader (message shape incl. empty non-final values, continuation, segment size, buffer size) cases "
                 "+ 3 back-pressure runs (native run of the compiled code; Pending patterns of a real socket are whatever the kernel produces; "
                 "not a deductive result)",
           fns=[("ul/src/association/pdata.rs", "setup_pdata_header")], timeout=900),
@@ -148,7 +150,7 @@ PROPS["C26"] = dict(
           "writer-shaped messages (1-3 P-DATA PDUs, one value each, only the final one marked last, final value possibly empty) followed by "
           "nothing / a second message / A-RELEASE-RQ: reading until Ok(0) returns exactly the payload and read_buffer ++ transport holds "
           "exactly the bytes that follow",
-          bound="2340 cases: 52 message shapes x 3 continuations x 5 transport segment sizes x 3 caller buffer sizes (native enumeration of "
+          bound="3780 cases: 84 message shapes (non-final values of 0-3 bytes: an EMPTY non-final value must not end the message) x 3 continuations x 5 transport segment sizes x 3 caller buffer sizes (native enumeration of "
                 "the compiled code; not a deductive result)",
           fns=[("ul/src/association/pdata.rs", "read", r"impl<R>\s+Read\s+for\s+PDataReader")]),
     ],
@@ -505,7 +507,7 @@ PROPS["C04"] = dict(
           "encode_text_element and encode_primitive_element (binary arm): header length is even and equals the number of "
           "value bytes that follow, pad byte NUL (UI / binary) or space (DA/DT/TM, text); for ALL of them bytes_written "
           "advances by exactly the bytes appended to the sink",
-          expected_verified=16, witness=dict(cmd=_WR % "c04_elements")),
+          expected_verified=17, witness=dict(cmd=_WR % "c04_elements")),
         V("C04.dataset_writer", "c04_dataset_writer.vrs",
           "DataSetWriter::write (the token-level writer): a stack of the open sequences / items records the length EMITTED for each; "
           "ItemEnd / SequenceEnd pop the innermost one and emit its delimiter exactly when it was emitted with undefined length and is of "
@@ -531,7 +533,7 @@ PROPS["C04"] = dict(
           "element layout: declared length even and equal to the value bytes that follow, value bytes as expected plus at most one padding "
           "byte (NUL for UI / binary, space for text / DA / DT / TM), bytes_written() == bytes handed to the sink — covers the arms the "
           "Verus unit does not (encode_texts_element, encode_element_as_text, the text codec)",
-          bound="2148 elements: 3 encoders x (17 text VRs x 31 shapes, 7 VRs x 10 non-ASCII shapes, bytes 0-5, 8 number types x 0-3 items, "
+          bound="2295 elements (incl. text given under the binary VRs UN / OB / OW / OD / OF / OL / OV, padded with NUL): 3 encoders x (17 text VRs x 31 shapes, 7 VRs x 10 non-ASCII shapes, bytes 0-5, 8 number types x 0-3 items, "
                 "tags 0-2, 12 date / 20 time / 7 date-time values, DS / IS as text); native enumeration of the compiled code, not a deductive result",
           fns=[(_SE, "encode_primitive_element", None), (_SE, "encode_texts_element", None), (_SE, "encode_element_as_text", None)]),
         K("C04.byte_len", "ext", _C04K,
@@ -798,7 +800,7 @@ PROPS["C34"] = dict(
           "every StatefulEncoder method (headers, items, delimiters, write_bytes, write_raw_bytes, offset table, text and binary "
           "elements): Ok is returned only if the sink reported no failure during the call (ghost failure counter on the Write shim; "
           "EncodeTo represented by the contract proved by C34.failing_writer)",
-          expected_verified=16),
+          expected_verified=17),
         V("C34.stateful_decoder", "c07_stateful_decoder.vrs",
           "every StatefulDecoder reader: Ok is returned only if the source reported no failure during the call (ghost failure "
           "counter on the Read shim), and a source that ends early is an error (read_to / skip_bytes)",
